@@ -887,7 +887,9 @@ def timeoutAct (cfg : Cfg) (l : Led) (h : Nat) (tx : Tx) (rc : Rcpt) : TOAct :=
       -- since the `fix:` commit "the destination hub's notice ends an inter-BitXHub transaction for the timeout mechanism too":
       -- a request between two hubs whose record is final leaves the list its record names and joins none
       let finalInter : Option Nat := if i.typ.isRequest then finalInterRecord l id else none
-      if t.chain == cfg.bxh || (i.group.isSome && !i.typ.isResponse) then .skip
+      -- since the `fix:` commit "a request between two BitXHubs that carries a Group times out like any other": such a request is
+      -- begun one-to-one (`beginTransaction`), so only a Group request inside one hub is left to the group bookkeeping
+      if t.chain == cfg.bxh || (i.group.isSome && !i.typ.isResponse && f.bxh == t.bxh) then .skip
       else if finalInter.isSome then .remove (finalInter.getD 0) id
       else if (invalid && !i.typ.isResponse) || failBegin then .skip
       else if i.typ.isRequest then
